@@ -945,7 +945,9 @@ def main():
     nhead, hclasses = header_part(ck)
     print('phases: probes+build %.1fs enumeration %.1fs file slice %.1fs header %.1fs' % (
         t_build - ck.t0, t_enum - t_build, t_file - t_enum, time.time() - t_file), flush=True)
-    ck.sample({'template': '\\\\\\@A\\@@B@\r\n', 'format': 'meson', 'data': {'A': '@B@', 'B': 'x y'}})
+    esc = next((t for t in TEMPLATES if '\\@A\\@' in t[0] and t[0].endswith('\r\n') and '@B@' in t[0]), TEMPLATES[0])
+    ck.sample({'template': esc[0], 'fragments': [FRAGS[i] for i in esc[1]], 'format': 'meson', 'data': {'A': '@B@', 'B': 'x y'},
+               'observed': ''.join(run_real(split_lines(esc[0]), cd_for('@B@', 'x y'), 'meson')[1])})
     ck.sample({'template': TEMPLATES[nt // 2][0], 'fragments': [FRAGS[i] for i in TEMPLATES[nt // 2][1]], 'formats': FORMATS})
     ck.sample({'template': TEMPLATES[nt - 7][0], 'fragments': [FRAGS[i] for i in TEMPLATES[nt - 7][1]], 'formats': FORMATS})
     ck.finish(evaluations=tot.get('evaluations', 0) + nfile + nhead,
